@@ -1222,20 +1222,20 @@ impl FatVolume {
         }
         self.update_fat(block_cache, cluster, ClusterId::END_OF_FILE)?;
         loop {
-            match self.next_cluster(block_cache, next) {
-                Ok(n) => {
-                    self.update_fat(block_cache, next, ClusterId::EMPTY)?;
-                    next = n;
-                }
-                Err(Error::EndOfFile) => {
-                    self.update_fat(block_cache, next, ClusterId::EMPTY)?;
-                    break;
-                }
+            let following = match self.next_cluster(block_cache, next) {
+                Ok(n) => Some(n),
+                Err(Error::EndOfFile) => None,
                 Err(e) => return Err(e),
-            }
-            if let Some(ref mut number_free_cluster) = self.free_clusters_count {
-                *number_free_cluster += 1;
             };
+            self.update_fat(block_cache, next, ClusterId::EMPTY)?;
+            // every cluster we free counts, including the last one
+            self.free_clusters_count = self
+                .free_clusters_count
+                .and_then(|number_free_cluster| number_free_cluster.checked_add(1));
+            match following {
+                Some(n) => next = n,
+                None => break,
+            }
         }
         Ok(())
     }
